@@ -4,7 +4,7 @@ from .. import gen, elect
 from ..common import Names, rat, run_impl
 
 PROP = "C04"
-LEAN_MODULE = "VK.Props.C04Top"
+LEAN_MODULE = "VK.Check.C04"
 THEOREMS = [
     "VK.C04_alloc_total",
     "VK.C04_ballot_total",
@@ -12,6 +12,8 @@ THEOREMS = [
     "VK.scoreToRanking_descending",
     "VK.C04_elect_top",
     "VK.C04_topM_winners_have_top_scores",
+    "VK.kernel_validVector_one",
+    "VK.kernel_validVector_step",
 ]
 RULE = ("cases = (utility in {score_profile_from_rankings, first_place_votes, mentions, borda_scores} | "
         "rule in {Plurality, SNTV, Borda}) x random profile (1-6 candidates, 0-10 ballots, tied positions of "
